@@ -53,6 +53,8 @@ def _enum(tier):
 def checks(tier):
     n = 40 if tier == "quick" else 120
     return [
-        Check("enum", _run, cases=_enum, shards={"quick": 4, "thorough": 16}, exhaustive=True),
+        Check("enum", _run, cases=_enum, shards={"quick": 8, "thorough": 16}, exhaustive=True),
         Check("gen", _run, strategy=histories("subject", n), examples={"quick": 4000, "thorough": 16 * 20000}, shards={"quick": 4, "thorough": 16}),
+        # last on purpose: a failure here must not cut the two searches above short
+        Check("falsy_error", _run, strategy=histories("subject", 12, falsy_error=True), examples={"quick": 400, "thorough": 16 * 1000}, shards={"quick": 1, "thorough": 16}),
     ]
